@@ -166,7 +166,7 @@ inline std::string crash_class(std::string const& err) {
 // Run `body(skip)` in a forked child; a child that dies is converted into a violation whose trace is the shared
 // Cur record, the trace's key is added to `skip`, and the shard is restarted (deterministic re-derivation).
 // body must call R.emit(stdout) itself at the end (the child's stdout is a memfd relayed only on success).
-inline int supervise(std::function<void(std::set<std::string> const&)> body, int max_restarts = 200) {
+inline int supervise(std::function<void(std::set<std::string> const&)> body, int max_restarts = 24) {
 	cur_init();
 	std::set<std::string> skip;
 	std::vector<std::string> crash_lines;
